@@ -67,6 +67,35 @@ class Ref:
         return all(self.dfa(r0).dead(D.deriv(q, c)) for c in self.syms)
 
     # ------------------------------------------------------------------ first sets (syntactic, branch-insensitive)
+    def first_dyn(self, stmts, data, last):
+        """like first(strict=True) but an `if` that is reached without an intervening data change is resolved with the current data"""
+        F = set()
+        for i, st in enumerate(stmts):
+            k = st[0]
+            if k == "if":
+                chosen = None
+                try:
+                    for cnd, body in st[1]:
+                        if cexpr.ev(cnd, self.env, data, last)[0] != 0:
+                            chosen = tuple(body)
+                            break
+                    else:
+                        chosen = tuple(st[2]) if st[2] is not None else ()
+                except cexpr.CUB:
+                    f, e = self.first(tuple(stmts[i:]), True)
+                    return F | f, e
+                f, e = self.first_dyn(chosen, data, last)
+                F |= f
+                if not e:
+                    return F, False
+                continue
+            if k in ("hook", "yield"):
+                continue
+            # anything else (including data-changing actions): fall back to the static, branch-insensitive sets
+            f, e = self.first(tuple(stmts[i:]), True)
+            return F | f, e
+        return F, True
+
     def first(self, stmts, strict=False):
         """-> (frozenset of symbols that may be consumed first, can_complete_without_consuming)
         strict: a wait contributes only the bytes that can start its pattern (bytes it merely skips do not 'start' it)"""
@@ -151,12 +180,15 @@ class Ref:
         self._first[key] = res
         return res
 
-    def cont_first(self, stack, strict=False):
+    def cont_first(self, stack, strict=False, data=None, last=None):
         """symbols the continuation (everything after the current statement) can consume first"""
         F = set()
         for fr in reversed(stack):
             kind, stmts, i, extra = fr
-            f, e = self.first(stmts[i:], strict)
+            if strict and data is not None:
+                f, e = self.first_dyn(stmts[i:], data, last)
+            else:
+                f, e = self.first(stmts[i:], strict)
             F |= f
             if not e:
                 return F
@@ -351,7 +383,7 @@ class Ref:
                     f, _ = self.first(tuple(s[1]))
                     adv()
                     if c in f:
-                        if c in self.cont_first(stack, True):
+                        if c in self.cont_first(stack, True, data, last):
                             raise RefAmbiguous("byte %r both enters an optional block and starts what follows it" % (c,))
                         stack.append(("seq", tuple(s[1]), 0, None))
                     else:
@@ -365,7 +397,7 @@ class Ref:
                     if self.live(r0, cur, c):
                         if D.nullable(cur) and started:
                             adv()
-                            cf = self.cont_first(stack, True)
+                            cf = self.cont_first(stack, True, data, last)
                             stack[-1] = (kind, stmts, i, extra)
                             if c in cf:
                                 raise RefAmbiguous("byte %r both continues %s and starts what follows" % (c, U.m_text(s[-1])))
